@@ -132,6 +132,17 @@ fn refs_request(id: i32, k: &str) -> Message {
     ))
 }
 
+/// document versions are not monotone over a script: an editor restarts them when a note is closed
+/// and opened again (the server is not told: it ignores didOpen / didClose), so "the last text
+/// sent" is decided by the order of arrival alone: 10, 1, 8, 3, 6, 5, ...
+fn version_at(pos: usize) -> i32 {
+    if pos % 2 == 0 {
+        10 - pos as i32
+    } else {
+        pos as i32
+    }
+}
+
 fn build_message(m: &Msg, req_id: i32, pos: usize) -> Message {
     match m {
         Msg::Fmt(k) => fmt_request(req_id, k),
@@ -139,7 +150,7 @@ fn build_message(m: &Msg, req_id: i32, pos: usize) -> Message {
         Msg::Chg(k, t) => Message::Notification(Notification::new(
             "textDocument/didChange".into(),
             DidChangeTextDocumentParams {
-                text_document: VersionedTextDocumentIdentifier { uri: uri(k), version: pos as i32 },
+                text_document: VersionedTextDocumentIdentifier { uri: uri(k), version: version_at(pos) },
                 content_changes: vec![TextDocumentContentChangeEvent { range: None, range_length: None, text: t.to_string() }],
             },
         )),
@@ -268,6 +279,9 @@ pub fn run_schedule(script: &[(String, Msg)], prefix: &[Choice]) -> Exec {
         } else {
             enabled[0].clone()
         };
+        if std::env::var_os("MC_SCHED_TRACE").is_some() {
+            eprintln!("step {} choice {:?} enabled {:?} log {:?}", step, c, enabled, x.log.last());
+        }
         x.enabled_at.push(enabled.clone());
         x.choices.push(c.clone());
         x.steps += 1;
@@ -337,7 +351,7 @@ pub fn run_schedule(script: &[(String, Msg)], prefix: &[Choice]) -> Exec {
                         Msg::Chg(k, t) => Message::Notification(Notification::new(
                             "textDocument/didChange".into(),
                             DidChangeTextDocumentParams {
-                                text_document: VersionedTextDocumentIdentifier { uri: uri(k), version: pos as i32 },
+                                text_document: VersionedTextDocumentIdentifier { uri: uri(k), version: version_at(pos) },
                                 content_changes: vec![TextDocumentContentChangeEvent { range: None, range_length: None, text: t.to_string() }],
                             },
                         )),
@@ -427,50 +441,55 @@ pub fn run_schedule(script: &[(String, Msg)], prefix: &[Choice]) -> Exec {
                     if p {
                         x.loop_panics.push(name);
                     }
-                    // the loop now works through everything that piled up in the inbox, in order
+                    // the loop now works through everything that piled up in the inbox, in order. Its
+                    // own events (applying / handled / spawned) arrive in program order; the "start"
+                    // pauses of the workers it spawns come from other threads and interleave freely
+                    let mut parked: HashMap<String, (u8, Sender<()>)> = HashMap::new();
+                    let mut fresh: Vec<String> = vec![];
                     for (qname, qm, rid) in queued.drain(..) {
-                        if let Some(rid) = rid {
-                            let (mut got_l, mut got_s) = (false, false);
-                            let mut pend: Option<(String, u8, Sender<()>)> = None;
-                            while !(got_l && got_s && pend.is_some()) {
-                                match next(&rx, &mut backlog) {
-                                    Ev::LoopHandled(p) => {
-                                        got_l = true;
-                                        if p {
-                                            x.loop_panics.push(qname.clone());
-                                        }
+                        let _ = qm;
+                        let (mut got_l, mut got_s) = (false, rid.is_none());
+                        while !(got_l && got_s) {
+                            match next(&rx, &mut backlog) {
+                                Ev::LoopHandled(p) => {
+                                    got_l = true;
+                                    if p {
+                                        x.loop_panics.push(qname.clone());
                                     }
-                                    Ev::Spawned(id, h) => {
-                                        ids.insert(id, workers.len());
-                                        workers.push(Worker { req_id: rid, phase: 0, release: None, handle: Some(h), done: false, exit_ok: true });
-                                        got_s = true;
-                                    }
-                                    Ev::Paused(id, ph, r) => pend = Some((id, ph, r)),
-                                    Ev::LoopApplying => {}
                                 }
-                            }
-                            let (id, ph, r) = pend.unwrap();
-                            let wi = ids[&id];
-                            workers[wi].phase = ph;
-                            workers[wi].release = Some(r);
-                            x.log.push(format!("L:{}#{} (from the inbox)", qname, rid));
-                        } else {
-                            let _ = qm;
-                            loop {
-                                match next(&rx, &mut backlog) {
-                                    Ev::LoopApplying => {}
-                                    Ev::LoopHandled(p) => {
-                                        x.log.push(format!("L:{} (from the inbox) panicked={}", qname, p));
-                                        if p {
-                                            x.loop_panics.push(qname.clone());
-                                        }
-                                        break;
-                                    }
-                                    _ => panic!("sched harness: unexpected event while the loop drains its inbox"),
+                                Ev::Spawned(id, h) => {
+                                    ids.insert(id.clone(), workers.len());
+                                    workers.push(Worker { req_id: rid.unwrap_or(0), phase: 0, release: None, handle: Some(h), done: false, exit_ok: true });
+                                    fresh.push(id);
+                                    got_s = true;
                                 }
+                                Ev::Paused(id, ph, r) => {
+                                    parked.insert(id, (ph, r));
+                                }
+                                Ev::LoopApplying => {}
                             }
                         }
+                        match rid {
+                            Some(rid) => x.log.push(format!("L:{}#{} (from the inbox)", qname, rid)),
+                            None => x.log.push(format!("L:{} (from the inbox)", qname)),
+                        }
                     }
+                    // every worker spawned on the way is parked at its start
+                    for id in fresh {
+                        while !parked.contains_key(&id) {
+                            match next(&rx, &mut backlog) {
+                                Ev::Paused(pid, ph, r) => {
+                                    parked.insert(pid, (ph, r));
+                                }
+                                _ => panic!("sched harness: unexpected event while the spawned workers park"),
+                            }
+                        }
+                        let (ph, r) = parked.remove(&id).unwrap();
+                        let wi = ids[&id];
+                        workers[wi].phase = ph;
+                        workers[wi].release = Some(r);
+                    }
+                    assert!(parked.is_empty() && backlog.is_empty(), "sched harness: events left over after the loop drained its inbox");
                 }
             }
         }
@@ -635,6 +654,7 @@ impl Engine for C11 {
     }
     fn assumptions(&self) -> Vec<String> {
         vec![
+            "document versions carried by didChange are not monotone within a script (10, 1, 8, 3, ...): editors restart them on re-open, and the statement's `last text sent` is about arrival order".into(),
             "request handlers take &Server and do not write shared state, so steps of different workers commute; the order of responses on the channel is not observed".into(),
             "scheduling inside a handler (rayon) is not controlled; it does not touch the state shared between loop and workers".into(),
             "a worker that has not yet taken the server is not scheduled while the loop waits to write (writer-preferring lock; conservative for other policies)".into(),
